@@ -66,7 +66,16 @@ func selftestMain(args []string) {
 		}
 		if ev, ok := em[l[:i]]; !ok || ev != l[i+1:] {
 			bad++
-			fmt.Printf("selftest MISMATCH %s\n  native: %.300s\n  engine: %.300s\n", l[:i], l[i+1:], ev)
+			nv := l[i+1:]
+			d := 0
+			for d < len(nv) && d < len(ev) && nv[d] == ev[d] {
+				d++
+			}
+			from := d - 120
+			if from < 0 {
+				from = 0
+			}
+			fmt.Printf("selftest MISMATCH %s (first difference at offset %d)\n  native: %.300s\n  engine: %.300s\n", l[:i], d, nv[from:], ev[from:])
 		}
 	}
 	if len(nat) != len(eng) {
